@@ -27,7 +27,7 @@ typedef struct wstate {
     uint64_t evals, nontriv, viols, skipped, gen_total;
     int enum_complete;
     int nlab;
-    struct { const char *p; char name[72]; uint64_t count; } lab[MAXLAB];
+    struct { const char *p; char name[136]; uint64_t count; } lab[MAXLAB];
     int nsamp;
     char samp[NSAMP][700];
     uint64_t nhash;
@@ -164,7 +164,7 @@ static void account(wstate_t *s, res_t *r, cs_t *cs, uint64_t idx, int vfd) {
         }
     }
     if (r->violation) {
-        char lk[200];
+        char lk[136];
         uint64_t before = 0;
         int j;
         s->viols++;
@@ -344,7 +344,7 @@ static int do_campaign(void) {
         uint64_t *all;
         FILE *f;
         int enum_complete = M->has_enum ? 1 : 0;
-        struct { char name[72]; uint64_t count; } *lab = calloc(MAXLAB * 4, sizeof *lab);
+        struct { char name[136]; uint64_t count; } *lab = calloc(MAXLAB * 4, sizeof *lab);
         int nlab = 0, j, k, ns = 0;
         for (w = 0; w < NW; w++) {
             evals += W[w]->evals; nontriv += W[w]->nontriv; viols += W[w]->viols;
